@@ -54,7 +54,8 @@ func parseTagPairs(tag reflect.StructTag) [][2]string {
 			break
 		}
 		// structtag: Name is the part before the first comma
-		if c := strings.IndexByte(val, ','); c >= 0 {
+		// (the flatten mangler's own field-path tag is a comma-joined path and is kept whole)
+		if c := strings.IndexByte(val, ','); c >= 0 && key != "dialsfieldpath" {
 			val = val[:c]
 		}
 		out = append(out, [2]string{key, val})
@@ -272,6 +273,10 @@ type envTypeGen struct {
 	leaves []envLeaf
 	used   map[string]bool // documented names used so far (distinct flattened names are a precondition)
 	alias  bool
+	embed  bool // embedded (anonymous) struct fields: their name adds no word unless tagged
+	colls  bool // slices / arrays / maps of structs (sub-transformers)
+	np     []string        // names of the enclosing non-embedded fields
+	flat   map[string]bool // flattened Go names used so far (embedded structs share their parent's name space)
 }
 
 func (g *envTypeGen) genStruct(depth int, path, words []string) reflect.Type {
@@ -295,10 +300,61 @@ func (g *envTypeGen) genStruct(depth int, path, words []string) reflect.Type {
 		}
 		fpath := append(append([]string{}, path...), ns.name)
 		fwords := append(append([]string{}, words...), w...)
-		if depth > 0 && r.Chance(30) {
-			inner := g.genStruct(depth-1, fpath, fwords)
+		if depth > 0 && g.colls && r.Chance(12) {
+			// a collection of structs: not a leaf of any source; its element type is translated by a
+			// sub-transformer
+			sub := &envTypeGen{r: r, used: map[string]bool{}, alias: g.alias}
+			inner := sub.genStruct(depth-1, nil, nil)
 			if inner.NumField() == 0 {
 				continue
+			}
+			switch r.Intn(4) {
+			case 0:
+				f.Type = reflect.SliceOf(inner)
+			case 1:
+				f.Type = reflect.ArrayOf(1+r.Intn(2), inner)
+			case 2:
+				f.Type = reflect.SliceOf(reflect.PtrTo(inner))
+			default:
+				f.Type = reflect.MapOf(reflect.TypeOf(""), inner)
+			}
+			flatName := strings.Join(append(append([]string{}, g.np...), ns.name), ".")
+			if g.flat == nil {
+				g.flat = map[string]bool{}
+			}
+			if g.flat[flatName] {
+				continue
+			}
+			g.flat[flatName] = true
+			f.Tag = reflect.StructTag(strings.Join(tagParts, " "))
+			fs = append(fs, f)
+			continue
+		}
+		if depth > 0 && r.Chance(30) {
+			if g.embed && r.Chance(35) {
+				f.Anonymous = true
+				if len(tagParts) == 0 {
+					fwords = append([]string{}, words...)
+				}
+			}
+			saveNP := g.np
+			if !f.Anonymous {
+				g.np = append(append([]string{}, g.np...), ns.name)
+			}
+			inner := g.genStruct(depth-1, fpath, fwords)
+			g.np = saveNP
+			if inner.NumField() == 0 {
+				continue
+			}
+			if g.embed {
+				flatName := strings.Join(append(append([]string{}, g.np...), ns.name), ".")
+				if g.flat == nil {
+					g.flat = map[string]bool{}
+				}
+				if g.flat[flatName] {
+					continue
+				}
+				g.flat[flatName] = true
 			}
 			if r.Chance(40) {
 				f.Type = reflect.PtrTo(inner)
@@ -316,12 +372,28 @@ func (g *envTypeGen) genStruct(depth int, path, words []string) reflect.Type {
 			if envTag != "" {
 				doc = envTag
 			}
-			if g.used[doc] {
+			flatName := strings.Join(append(append([]string{}, g.np...), ns.name), ".")
+			if g.used[doc] || g.flat[flatName] {
 				continue
 			}
 			g.used[doc] = true
+			if g.flat == nil {
+				g.flat = map[string]bool{}
+			}
+			g.flat[flatName] = true
 			f.Type = lt
-			g.leaves = append(g.leaves, envLeaf{path: fpath, words: fwords, envTag: envTag, typ: lt})
+			leaf := envLeaf{path: fpath, words: fwords, envTag: envTag, typ: lt}
+			if g.alias && r.Chance(30) {
+				// alias on the dials tag: the alias name replaces this path element's words
+				aw := []string{"old", fmt.Sprintf("n%d", len(g.leaves))}
+				adoc := strings.ToUpper(strings.Join(append(append([]string{}, words...), aw...), "_"))
+				if !g.used[adoc] {
+					g.used[adoc] = true
+					tagParts = append(tagParts, fmt.Sprintf(`dialsalias:"old_n%d"`, len(g.leaves)))
+					leaf.aliasOf = adoc
+				}
+			}
+			g.leaves = append(g.leaves, leaf)
 		}
 		f.Tag = reflect.StructTag(strings.Join(tagParts, " "))
 		fs = append(fs, f)
@@ -404,6 +476,9 @@ func genEnvValue(r *RNG, t reflect.Type) (text string, want string) {
 					if t.Elem().Kind() == reflect.Float64 {
 						w = "& s" + hexEnc("7")
 					}
+					if t.Elem() == reflect.TypeOf(time.Duration(0)) {
+						txt, w = "7s", "& s"+hexEnc("7s")
+					}
 				}
 				parts = append(parts, txt)
 				wants = append(wants, strings.TrimPrefix(w, "& "))
@@ -449,6 +524,24 @@ func genEnvValue(r *RNG, t reflect.Type) (text string, want string) {
 				parts = append(parts, fmt.Sprintf("%s:%d", k, m[k]))
 			}
 			return strings.Join(parts, ","), tfVal(reflect.ValueOf(m))
+		case reflect.TypeOf(map[string]time.Duration(nil)):
+			if bad {
+				return "a:1s,b:soon", ""
+			}
+			seen := map[string]bool{}
+			var parts, wants []string
+			for i := r.Intn(4); i > 0; i-- {
+				k := "k" + genWord(r)
+				if seen[k] {
+					continue
+				}
+				seen[k] = true
+				d := time.Duration(r.Intn(100000)) * time.Millisecond
+				parts = append(parts, k+":"+d.String())
+				wants = append(wants, "s"+hexEnc(k)+" s"+hexEnc(d.String()))
+			}
+			sort.Strings(wants)
+			return strings.Join(parts, ","), strings.Join(append(append([]string{"<"}, wants...), ">"), " ")
 		default: // map[Level]bool
 			m := map[Level]bool{}
 			var parts []string
